@@ -195,7 +195,18 @@ impl Gen {
             48 => (json!({"op": "TTL", "k": k}), vec![b("TTL"), kb]),
             49 => (json!({"op": "PERSIST", "k": k}), vec![b("PERSIST"), kb]),
             50..=51 => { let k2 = self.key(); let nx = self.rng.gen_bool(0.3); (json!({"op": "RENAME", "k": k, "k2": k2, "nx": nx}), vec![b(if nx { "RENAMENX" } else { "RENAME" }), kb, k2.into_bytes()]) }
-            52 => (json!({"op": "DBSIZE"}), vec![b("DBSIZE")]),
+            52 => {
+                if self.rng.gen_bool(0.4) {
+                    (json!({"op": "DBSIZE"}), vec![b("DBSIZE")])
+                } else {
+                    // KEYS with a glob pattern (the key universe travels with the command: keys are strings in the model)
+                    let pats: [&[u8]; 20] = [b"*", b"k*", b"k?", b"k[12]", b"k[^1]", b"[a-k]*", b"k[1-2]", b"\\k1", b"*s", b"??", b"h*", b"[hl]s*", b"k1", b"nomatch",
+                                             b"*[0-9]", b"[^k]*", b"?[s-t]*", b"[c]nt", b"k[3-1]", b"*t*"];
+                    let pat = pats[self.rng.gen_range(0..pats.len())].to_vec();
+                    let kbs: Vec<Value> = self.keys.iter().map(|x| json!([x, x.as_bytes()])).collect();
+                    (json!({"op": "KEYS", "pat": pat, "kb": kbs}), vec![b("KEYS"), pat])
+                }
+            }
             53..=57 => { let n = self.rng.gen_range(1..=3); let vs: Vec<Vec<u8>> = (0..n).map(|_| self.small()).collect(); let left = self.rng.gen_bool(0.5);
                          let mut argv = vec![b(if left { "LPUSH" } else { "RPUSH" }), kb]; argv.extend(vs.clone()); (json!({"op": "PUSH", "k": k, "vs": vs, "left": left}), argv) }
             58..=59 => { let left = self.rng.gen_bool(0.5); (json!({"op": "POP", "k": k, "left": left}), vec![b(if left { "LPOP" } else { "RPOP" }), kb]) }
@@ -329,6 +340,7 @@ pub fn render(c: &Value) -> Argv {
         "ECHO" => argv = vec![b("ECHO"), bytes_of(&c["v"])],
         "SETNX" | "GETSET" | "APPEND" => argv = vec![b(c["op"].as_str().unwrap()), k(), bytes_of(&c["v"])],
         "DBSIZE" | "FLUSHALL" => argv = vec![b(c["op"].as_str().unwrap())],
+        "KEYS" => argv = vec![b("KEYS"), c["pat"].as_array().unwrap().iter().map(|x| x.as_u64().unwrap() as u8).collect()],
         // single-key commands without further arguments
         op => argv = vec![b(op), k()],
     }
